@@ -3,7 +3,6 @@
 package hk
 
 import (
-	"runtime/debug"
 	"syscall"
 	"unsafe"
 )
@@ -32,7 +31,6 @@ type GBuf struct {
 
 var pageSize = syscall.Getpagesize()
 
-func init() { debug.SetPanicOnFault(true) }
 
 // NewGuarded allocates a guarded buffer of n bytes.
 func NewGuarded(n int, place int) *GBuf {
